@@ -65,6 +65,10 @@ def showRData : RData → String
   | .tlsa u sl m d => "TLSA:" ++ toString u ++ ":" ++ toString sl ++ ":" ++ toString m ++ ":" ++ toHex d
   | .sshfp a f d => "SSHFP:" ++ toString a ++ ":" ++ toString f ++ ":" ++ toHex d
   | .openpgpkey d => "OPENPGPKEY:" ++ toHex d
+  | .key flags proto alg k => "KEY:" ++ toString flags ++ ":" ++ toString proto ++ ":" ++ toString alg ++ ":" ++ toHex k
+  | .caa crit res tag v => "CAA:" ++ showBool crit ++ ":" ++ toString res ++ ":" ++ toHex tag ++ ":" ++ toHex v
+  | .naptr o p f sv re n =>
+    "NAPTR:" ++ toString o ++ ":" ++ toString p ++ ":" ++ toHex f ++ ":" ++ toHex sv ++ ":" ++ toHex re ++ ":" ++ showName n
   | .opaque t v => "X" ++ toString t ++ ":" ++ toHex v
 
 def showRecord (r : Record) : String :=
